@@ -5,6 +5,7 @@ import (
 	"compress/flate"
 	"encoding/base64"
 	"fmt"
+	"github.com/beevik/etree"
 	"io"
 	"math/rand/v2"
 	"strings"
@@ -17,7 +18,7 @@ import (
 
 func init() {
 	register(&Prop{ID: "C20", Run: runC20, MinNontrivial: 500,
-		Rule:        "cases = (a) conforming SSO responses in every C08 layout (prefix styles, attribute order, quotes, comments, CDATA/char-refs, XML declaration variants, DEFLATE levels, value classes) and conforming LogoutResponses from the C10 generator; (b) attacker-shaped roots made acceptable by a trusted-signed assertion inside an unsigned Response or by the skip configuration: duplicated and prefixed root attributes, attribute values with references/whitespace, several Issuer children, Issuer in a foreign namespace or nested, comments/CDATA/references in Issuer, BOM, DOCTYPE, leading whitespace/comments/PIs, XML declarations incl. declared non-UTF-8 encodings; oracle: full validation accepts => the unverified decoder succeeds and reports the same ID, InResponseTo, Destination, Version and Issuer; both succeed => equal; non-trivial = full validation accepted; distinct by hash of the document; present-but-empty root Issuers; transport re-spellings of the encoded message (folded, trailing white space, + as space, URL-safe alphabet, dropped padding); extra EncryptedAssertions whose plaintext is an Issuer / Status element; root-signed responses of 3-12 MiB presented uncompressed; unknown root children with HTML void-element names; class deflate-xml-polyglot (stored-block streams readable as XML, F12)",
+		Rule:        "cases = (a) conforming SSO responses in every C08 layout (prefix styles, attribute order, quotes, comments, CDATA/char-refs, XML declaration variants, DEFLATE levels, value classes) and conforming LogoutResponses from the C10 generator; (b) attacker-shaped roots made acceptable by a trusted-signed assertion inside an unsigned Response or by the skip configuration: duplicated and prefixed root attributes, attribute values with references/whitespace, several Issuer children, Issuer in a foreign namespace or nested, comments/CDATA/references in Issuer, BOM, DOCTYPE, leading whitespace/comments/PIs, XML declarations incl. declared non-UTF-8 encodings; oracle: full validation accepts => the unverified decoder succeeds and reports the same ID, InResponseTo, Destination, Version and Issuer; both succeed => equal; non-trivial = full validation accepted; distinct by hash of the document; present-but-empty root Issuers; transport re-spellings of the encoded message (folded, trailing white space, + as space, URL-safe alphabet, dropped padding); extra EncryptedAssertions whose plaintext is an Issuer / Status element; root-signed responses of 3-12 MiB presented uncompressed; unknown root children with HTML void-element names; class deflate-xml-polyglot (stored-block streams readable as XML, F12); class nsdecl-added-after-signing; trailing top-level content; class latin1-transcoded (a signed message re-encoded to ISO-8859-1 under a declaration naming it); class unsigned-material-inside-the-signature (ds:Object with deep / wide / look-alike content added to the root's Signature after signing)",
 		Assumptions: []string{"values containing \"]]>\" inside XML attributes are skipped (finding K2: such responses are rejected by validation)"}})
 }
 
@@ -536,6 +537,138 @@ func runC20(c *mon.Ctx) {
 		cs.Nontrivial(fmt.Sprintf("%x", mon.Hash64(doc)))
 		c20CompareKeyed(cs, sp, sim.Encode(doc, sim.RawLevel), false, kind)
 		c.Count("signedshape."+kind, 1)
+	}
+
+	// (f) material that the signature does not cover, added inside the root's own Signature element after signing
+	// (ds:Object with deep or wide content, a second KeyInfo, comments): validation decodes the signed content, the
+	// unverified decoders the whole message - both report the same root values or both fail
+	nf := c.N(150, 6000)
+	for k := 0; k < nf; k++ {
+		cs := c.Begin("unsigned-material-inside-the-signature", k)
+		if cs == nil {
+			continue
+		}
+		r := cs.Rand()
+		signer := w.IdP[r.IntN(len(w.IdP))]
+		logout := k%3 == 0
+		var doc string
+		var err error
+		if logout {
+			l := sim.GenuineLogout(w.Env, true)
+			l.ID = sim.S(fmt.Sprintf("_l%08x", r.Uint32()))
+			l.Sig = randSigSpec(r, signer, true, false)
+			doc, err = sim.BuildLogout(l, sim.PlainStyle())
+		} else {
+			rec := sim.GenuineResponse(w.Env, 1)
+			rec.ID = sim.S(fmt.Sprintf("_r%08x", r.Uint32()))
+			rec.Sig = randSigSpec(r, signer, true, false)
+			doc, err = sim.BuildResponse(rec, sim.PlainStyle())
+		}
+		if err != nil {
+			cs.Inconclusive("simulator-error")
+			continue
+		}
+		d, perr := sim.ParseDoc(doc)
+		if perr != nil || sim.SigOf(d.Root()) == nil {
+			cs.Inconclusive("simulator-error")
+			continue
+		}
+		sg := sim.SigOf(d.Root())
+		obj := etree.NewElement("Object")
+		obj.Space = sg.Space
+		what := ""
+		switch r.IntN(5) {
+		case 0, 1:
+			depth := pick(r, []int{5, 50, 65, 100, 300, 1000})
+			cur := obj
+			for i := 0; i < depth; i++ {
+				cur = cur.CreateElement("n")
+			}
+			cur.CreateElement("saml:Issuer").SetText("https://evil-idp.example.test/")
+			what = fmt.Sprintf("nesting depth %d", depth)
+		case 2:
+			for i := 0; i < 3000; i++ {
+				obj.CreateElement("w").CreateAttr("ID", "_evil")
+			}
+			what = "3000 children"
+		case 3:
+			inner := obj.CreateElement("samlp:Response")
+			inner.CreateAttr("ID", "_evil")
+			inner.CreateAttr("InResponseTo", "_attacker_chosen")
+			inner.CreateAttr("Destination", "https://other-tenant.example.test/acs")
+			inner.CreateElement("saml:Issuer").SetText("https://evil-idp.example.test/")
+			what = "a look-alike Response"
+		case 4:
+			obj.CreateAttr("ID", "_evil")
+			obj.CreateAttr("InResponseTo", "_attacker_chosen")
+			obj.CreateText(strings.Repeat("x", 100000))
+			what = "100 KB of text"
+		}
+		sg.AddChild(obj)
+		doc = sim.DocString(d)
+		cs.Desc("logout=%v ds:Object with %s added to the root signature", logout, what)
+		cs.Input([]byte(trunc(doc, 4096)))
+		sp, _, _ := NewSP(w.Now, signer)
+		cs.Nontrivial(cs.Description())
+		c20CompareKeyed(cs, sp, sim.Encode(doc, sim.RawLevel), logout, "unsigned-material-inside-the-signature")
+	}
+
+	// (e) a correctly signed message whose characters all fit ISO-8859-1, re-encoded to that encoding (one byte per
+	// character) under a declaration that names it: whoever accepts it reads it the same everywhere, and whoever reads
+	// the bytes as UTF-8 refuses it everywhere
+	ne := c.N(90, 3000)
+	for k := 0; k < ne; k++ {
+		cs := c.Begin("latin1-transcoded", k)
+		if cs == nil {
+			continue
+		}
+		r := cs.Rand()
+		signer := w.IdP[r.IntN(len(w.IdP))]
+		logout := k%3 == 0
+		var doc string
+		var err error
+		if logout {
+			l := sim.GenuineLogout(w.Env, true)
+			l.ID = sim.S(fmt.Sprintf("_l%08x", r.Uint32()))
+			l.InResponseTo = sim.S(pick(r, []string{"_req-M\u00fcnchen", "_r\u00e9q", "_req1"}))
+			l.Sig = randSigSpec(r, signer, true, false)
+			doc, err = sim.BuildLogout(l, sim.PlainStyle())
+		} else {
+			rec := sim.GenuineResponse(w.Env, 1)
+			rec.ID = sim.S(fmt.Sprintf("_r%08x", r.Uint32()))
+			rec.InResponseTo = sim.S(pick(r, []string{"_req-M\u00fcnchen", "_r\u00e9q", "_req1"}))
+			rec.Assertions[0].NameID = sim.S(pick(r, []string{"J\u00fcrgen M\u00fcller", "caf\u00e9@example.org", "\u00ff\u00fe"}))
+			if r.IntN(2) == 0 {
+				rec.Sig = randSigSpec(r, signer, true, false)
+			} else {
+				rec.Assertions[0].Sig = randSigSpec(r, signer, true, false)
+			}
+			doc, err = sim.BuildResponse(rec, sim.PlainStyle())
+		}
+		if err != nil || strings.HasPrefix(doc, "<?xml") {
+			cs.Inconclusive("simulator-error")
+			continue
+		}
+		var b []byte
+		fits := true
+		for _, ch := range doc {
+			if ch > 0xff {
+				fits = false
+				break
+			}
+			b = append(b, byte(ch))
+		}
+		if !fits {
+			cs.Inconclusive("simulator-error")
+			continue
+		}
+		label := pick(r, []string{"ISO-8859-1", "iso-8859-1", "latin1", "ISO_8859-1", "windows-1252", "UTF-8"})
+		b = append([]byte(`<?xml version="1.0" encoding="`+label+`"?>`), b...)
+		cs.Desc("logout=%v declared %s, %d bytes, one byte per character", logout, label, len(b))
+		cs.Input(b)
+		sp, _, _ := NewSP(w.Now, signer)
+		cs.Nontrivial(cs.Description())
+		c20CompareKeyed(cs, sp, base64.StdEncoding.EncodeToString(b), logout, "latin1-transcoded")
 	}
 
 	// (d) a root the IdP signed, to which somebody afterwards adds namespace declarations that nothing uses, their
